@@ -18,6 +18,7 @@
  *   ACCESS                          status, objval, x, pi, slack, rc
  *   TABLEAU                         basis order, every row of B^-1, every tableau row
  *   PIVROW <k> <r>*k | PIVCOL <k> <c>*k    mpq_QSopt_pivotin_row / _col
+ *   CHG coef i j v | obj j v | rhs i v | sense i s | bound j L|U|B v | objsense MIN|MAX | range i v   edits of the current object
  *  component level (mpq_ILLfactor*):
  *   FNEW <n> [<param> <val>]*       fresh factor_work of dimension n (iparams: 1 MAX_K, 2 P, 3 ETAMAX, 17 DENSE_MIN;
  *                                   d<code> <rational> = dparam, e.g. d11 ER_SPACE_MUL, d8 UC_SPACE_MUL, d16 DENSE_FRACT)
@@ -25,7 +26,7 @@
  *   FACTOR                          mpq_ILLfactor on the current columns
  *   FTRAN <cnt> (<idx> <val>)*      -> FTRAN x_0 .. x_{n-1}
  *   BTRAN <cnt> (<idx> <val>)*      -> BTRAN y_0 .. y_{n-1}
- *   FUPD <col> <cnt> (<row> <val>)* ftran_update with the new column, then ILLfactor_update replacing basis position col;
+ *   FUPD <col> <cnt> (<row> <val>)* ftran_update with the new column (-> FUPDX x, FUPDS spike as listed), then ILLfactor_update replacing basis position col;
  *                                   on failure / refactor request: fresh factorization (REFACTOR), undone if singular (REVERT)
  *   FDUMP                           representation dump of the factor_work
  *   FFREE
@@ -324,7 +325,7 @@ int main (int argc, char **argv)
 			int col = atoi (qsx_tok[1]), refactor = 0, rv, i, oldlen, *oldind;
 			mpq_t *oldcoef;
 			if (!F || col < 0 || col >= FN) qsx_die ("FUPD");
-			if (!Fvalid) { printf ("FUPDX NOFACTOR\nFUPD NOFACTOR\n"); fflush (stdout); continue; }
+			if (!Fvalid) { printf ("FUPDX NOFACTOR\nFUPDS NOFACTOR\nFUPD NOFACTOR\n"); fflush (stdout); continue; }
 			parse_svec (2, &a, FN);
 			mpq_ILLsvector_init (&x); mpq_ILLsvector_alloc (&x, FN);
 			mpq_ILLsvector_init (&upd); mpq_ILLsvector_alloc (&upd, FN);
@@ -337,6 +338,10 @@ int main (int argc, char **argv)
 			Fclen[col] = a.nzcnt;
 			mpq_ILLfactor_ftran_update (F, &a, &upd, &x);
 			print_dense ("FUPDX", &x, FN);
+			/* the spike handed to ILLfactor_update, as listed (order and explicit zeros kept) */
+			printf ("FUPDS %d", upd.nzcnt);
+			for (i = 0; i < upd.nzcnt; i++) { printf (" %d ", upd.indx[i]); qsx_print_q (stdout, upd.coef[i]); }
+			putchar ('\n');
 			rv = mpq_ILLfactor_update (F, &upd, col, &refactor);
 			printf ("FUPD %d %d", rv, refactor);
 			if (rv || refactor)
@@ -380,6 +385,23 @@ int main (int argc, char **argv)
 		{
 			qsx_dump_ilp (stdout, P);
 			if (qsx_dump_user (stdout, P)) printf ("ULP ERR\n");
+		}
+		else if (!strcmp (op, "CHG"))
+		{
+			/* CHG coef i j v | obj j v | rhs i v | sense i s | bound j L|U|B v | objsense MIN|MAX | range i v
+			 * (edits on the current object: verdict calls after them must answer for the edited problem) */
+			int rv = -99;
+			mpq_t v;
+			mpq_init (v);
+			if (!strcmp (qsx_tok[1], "coef")) { qsx_parse_q (qsx_tok[4], v); rv = mpq_QSchange_coef (P, atoi (qsx_tok[2]), atoi (qsx_tok[3]), v); }
+			else if (!strcmp (qsx_tok[1], "obj")) { qsx_parse_q (qsx_tok[3], v); rv = mpq_QSchange_objcoef (P, atoi (qsx_tok[2]), v); }
+			else if (!strcmp (qsx_tok[1], "rhs")) { qsx_parse_q (qsx_tok[3], v); rv = mpq_QSchange_rhscoef (P, atoi (qsx_tok[2]), v); }
+			else if (!strcmp (qsx_tok[1], "range")) { qsx_parse_q (qsx_tok[3], v); rv = mpq_QSchange_range (P, atoi (qsx_tok[2]), v); }
+			else if (!strcmp (qsx_tok[1], "sense")) rv = mpq_QSchange_sense (P, atoi (qsx_tok[2]), qsx_tok[3][0]);
+			else if (!strcmp (qsx_tok[1], "bound")) { qsx_parse_q (qsx_tok[4], v); rv = mpq_QSchange_bound (P, atoi (qsx_tok[2]), qsx_tok[3][0], v); }
+			else if (!strcmp (qsx_tok[1], "objsense")) rv = mpq_QSchange_objsense (P, strcmp (qsx_tok[2], "MAX") ? QS_MIN : QS_MAX);
+			printf ("CHG %d\n", rv);
+			mpq_clear (v);
 		}
 		else if (!strcmp (op, "BOPT") || !strcmp (op, "BDUAL") || !strcmp (op, "BDUALP") || !strcmp (op, "VERIFY"))
 		{
